@@ -737,6 +737,8 @@ func runC11(c *Ctx) {
 	runC11Presized(c)
 	// ---------------------------------------------------------------- C11.12
 	runC11NewFieldKind(c)
+	// ---------------------------------------------------------------- C11.13
+	runC11CloseUnblocks(c)
 
 	// ---------------------------------------------------------------- C11.10
 	c.Rule("C11.10", "a declared content length is non-negative or the -1 sentinel", 1)
@@ -1211,5 +1213,56 @@ func runC11NewFieldKind(c *Ctx) {
 	}
 	if n == 0 {
 		c.Trivial("C11.12", "*", "newfield-message-needs-singular", token.NoPos, "no NewField result is used as a message")
+	}
+}
+
+// runC11CloseUnblocks: C11.13 (defect D39).  The request-body adapters hold their mutex for the
+// whole of Read, including the blocking read from the client.  Close therefore must close the
+// wrapped body BEFORE it takes that mutex - closing the body is what interrupts a pending Read;
+// a Close that locks first waits for a Read that only it could have unblocked, and a handler
+// that closes the body to stop its reader goroutine (grpc-go does) hangs.
+func runC11CloseUnblocks(c *Ctx) {
+	p := c.P
+	c.Rule("C11.13", "Close of a request-body adapter closes the wrapped body before taking the mutex that Read holds while blocked", 2)
+	for _, ra := range readerAdapters(p) {
+		pt := types.NewPointer(ra.typ)
+		cl := p.MethodOf(pt, "Close")
+		if cl == nil {
+			fatalf("anchor=%s.Close not found", typeName(pt))
+		}
+		rF := p.Field(N(ra.typ.Obj()), "r")
+		// does Read hold a lock across the source read?  (if the adapter has no mutex nothing can block Close)
+		locksInRead := false
+		ForEachInstr(ra.read, func(in ssa.Instruction) {
+			if ci, ok := in.(ssa.CallInstruction); ok && IsCallTo(ci, "(*sync.Mutex).Lock") {
+				locksInRead = true
+			}
+		})
+		if !locksInRead {
+			c.Trivial("C11.13", FuncName(cl), "close-before-lock", cl.Pos(), "Read takes no lock")
+			continue
+		}
+		isLock := func(in ssa.Instruction) bool {
+			ci, ok := in.(ssa.CallInstruction)
+			return ok && IsCallTo(ci, "(*sync.Mutex).Lock")
+		}
+		isBodyClose := func(in ssa.Instruction) bool {
+			ci, ok := in.(ssa.CallInstruction)
+			if !ok || !ci.Common().IsInvoke() || N(ci.Common().Method) != "Close" {
+				return false
+			}
+			return rF != nil && LoadedField(ci.Common().Value) == rF
+		}
+		// every path from the entry to the first Lock passes the close of the wrapped body
+		lockFirst, path := PathQuery{Target: isLock, Avoid: isBodyClose}.Search(cl, nil)
+		hasClose := false
+		ForEachInstr(cl, func(in ssa.Instruction) {
+			if isBodyClose(in) {
+				hasClose = true
+			}
+		})
+		c.Check(hasClose && !lockFirst, "C11.13", FuncName(cl), "close-before-lock", cl.Pos(),
+			"the wrapped body is closed on every path before the mutex is taken",
+			"Close takes the adapter's mutex before closing the wrapped body ("+witnessString(p, path)+"): while a Read is blocked on the client holding that mutex, Close waits for it instead of interrupting it - a handler that closes the body to stop its reader goroutine hangs (bidi streams through grpc-go)")
 	}
 }
